@@ -65,6 +65,50 @@ def repro_snippet(rec):
 CHUNK = 4000      # records judged per stage in the thorough tier
 
 
+def in_child(fn):
+    """Run fn() in a forked child and return its (picklable) result.
+
+    The library keeps the default values of a structure's fields in the constants of a generated code object; code objects are
+    not tracked by the garbage collector, so every cstruct object that ever defined a structure stays alive (class -> __init__ ->
+    code -> default instance -> its type -> cstruct -> class).  A thorough run creates ~100 000 of them (13 GB).  Each stage
+    therefore drives the library in a child process, which takes that memory with it when it exits; the parent only sees records."""
+    import pickle
+    import traceback
+
+    fd, path = tempfile.mkstemp(prefix="stage_", suffix=".pkl")
+    os.close(fd)
+    pid = os.fork()
+    if pid == 0:
+        code = 0
+        try:
+            with open(path, "wb") as fh:
+                pickle.dump(("ok", fn()), fh, protocol=pickle.HIGHEST_PROTOCOL)
+        except BaseException:  # noqa: BLE001 - reported by the parent
+            code = 1
+            try:
+                with open(path, "wb") as fh:
+                    pickle.dump(("error", traceback.format_exc()), fh)
+            except BaseException:  # noqa: BLE001
+                pass
+        finally:
+            os._exit(code)
+    try:
+        _, status = os.waitpid(pid, 0)
+        try:
+            with open(path, "rb") as fh:
+                kind, val = pickle.load(fh)
+        except Exception as e:  # noqa: BLE001
+            raise MachineryError(f"scenario stage died (wait status {status}): {e}")
+    finally:
+        try:
+            os.unlink(path)
+        except OSError:
+            pass
+    if kind != "ok":
+        raise MachineryError(f"scenario stage failed in the child process:\n{val}")
+    return val
+
+
 def slim(rec):
     """A recorded scenario without the bulky abstract type (for evidence samples)."""
     return {"defs": rec["defs"], "mode": rec["mode"], "start": rec.get("start"), "input_hex": bytes(rec.get("input", [])).hex(),
@@ -73,6 +117,10 @@ def slim(rec):
 
 def adjudicate(rep, records, owned, *, trace_module="Trace_Codec", nontrivial=None, findings=None):
     """Validate records with TLC and sort the verdicts into accepted / known finding / violation."""
+    if os.environ.get("VERIF_MEMTRACE"):
+        import resource
+        import sys
+        print(f"[mem] adjudicate({len(records)} records) maxrss={resource.getrusage(resource.RUSAGE_SELF).ru_maxrss >> 10} MB", file=sys.stderr, flush=True)
     rep.evaluations += len(records)
     ok = []
     for r in records:
@@ -225,8 +273,10 @@ class CodecCheck:
             # judged in stages (see below): CHUNK records at a time
             recs, per = [], max(1, CHUNK // 5)
             for a in range(0, len(sub), per):
-                adjudicate(rep, scenarios_from_universe(sub[a:a + per], rnd, both=self.both, compiled=self.compiled,
-                                                        inputs=("ramp", "ff", "x80", "zero", "rand")), self.owned, nontrivial=self.nontrivial)
+                r2 = random.Random(rnd.randrange(1 << 30))
+                adjudicate(rep, in_child(lambda: scenarios_from_universe(sub[a:a + per], r2, both=self.both, compiled=self.compiled,  # noqa: B023
+                                                                         inputs=("ramp", "ff", "x80", "zero", "rand"))),
+                           self.owned, nontrivial=self.nontrivial)
         else:
             recs = scenarios_from_universe(sub, rnd, both=self.both, compiled=self.compiled, inputs=("ramp", "rand"))
         # E2 (b): random definitions far beyond the bounds
@@ -242,11 +292,13 @@ class CodecCheck:
         left = n
         while left > 0:
             k = min(left, CHUNK)
-            chunk = codec.random_batch(k, rnd.randrange(1 << 30), self.cfg, compiled=self.compiled, both=self.both, first_id=base)
+            sd = rnd.randrange(1 << 30)
+            chunk = in_child(lambda: codec.random_batch(k, sd, self.cfg, compiled=self.compiled, both=self.both, first_id=base))  # noqa: B023
             adjudicate(rep, chunk, self.owned, nontrivial=self.nontrivial)
             base, left, chunk = base + k, left - k, None
         if self.extra:
-            adjudicate(rep, self.extra(rep, rnd, base), self.owned, nontrivial=self.nontrivial)
+            r2 = random.Random(rnd.randrange(1 << 30))
+            adjudicate(rep, in_child(lambda: self.extra(rep, r2, base)), self.owned, nontrivial=self.nontrivial)
 
     def replay(self, path):
         """Re-run a recorded violation on the current tree and judge it again."""
